@@ -18,7 +18,10 @@ Jobs(o, k, p, slow) ==
 Cases ==
   {[period |-> p, jobs |-> Jobs(o, 1, p, sl), signals |-> <<>>] : p \in Periods, o \in Outcomes, sl \in BOOLEAN}
   \cup UNION {{[period |-> p, jobs |-> Jobs(o, 1, p, FALSE), signals |-> <<s>>] : o \in Outcomes, s \in SigPlaces(p)} : p \in Periods}
-ASSUME PrintT(<<"GEN", ToJson([cases |-> Cases])>>)
+(* a long run of consecutive failures (far beyond the point where the delay stops growing), a recovery, *)
+(* and failures again: the delay must stay at the cap, return to the period, and restart at one minute *)
+LongCases == {[period |-> p, jobs |-> [k \in 1..46 |-> [ok |-> (k \in {41, 42}), dur |-> 0]], signals |-> <<>>] : p \in Periods}
+ASSUME PrintT(<<"GEN", ToJson([cases |-> Cases, long |-> LongCases])>>)
 VARIABLE dummy
 Spec == dummy = 0 /\ [][dummy' = dummy]_dummy
 =============================================================================
